@@ -559,7 +559,7 @@ void run_case(const uint8_t *data, size_t size, CaseCtx &ctx) {
     bwd_t Bw(cfg, top.make_top(), good, fp);
     typename fwd_t::assumption_map_t assumptions;
     g_step_count = 0;
-    g_step_budget = 5000000;
+    g_step_budget = 400000;
     try {
       if (inv_mode) {
         F.run(cfg.entry(), init, assumptions);
@@ -679,7 +679,7 @@ void run_case(const uint8_t *data, size_t size, CaseCtx &ctx) {
   fb_t a(cfg, top.make_top());
   typename fb_t::assumption_map_t assumptions;
   g_step_count = 0;
-  g_step_budget = 20000000;
+  g_step_budget = 1500000;
   try {
     a.run(cfg.entry(), init, assumptions, use_liveness ? &live : nullptr, fp, params);
   } catch (const step_budget_exceeded &e) {
